@@ -146,6 +146,8 @@ PROPS = {
     "C02": {
         "class_prefixes": ["c02-", "harness-crash"],
         "subs": [
+            {"name": "rx", "n_quick": 1000, "n_thorough": 30000, "model": "coq/Link/Receiver.v",
+             "rule": "receiver side: the rx scripts of C09/C10 (rcv-settle-mode second: unsettled until the sender's settling disposition; dispositions settled or not according to the mode of each delivery)"},
             {"name": "c02", "n_quick": 2500, "n_thorough": 100000, "model": "coq/Session/Disposition.v",
              "rule": "1-3 sender links (rcv-settle-mode first/second at random) on one session; histories of unsettled sends and incoming "
                      "dispositions (single ids, ranges over several deliveries and links, settled/unsettled, every state incl. the "
@@ -233,5 +235,40 @@ PROPS = {
                         "no session traffic: a connection engine blocked on a full session channel sends no heartbeats - not modelled"],
         "partial": ["heartbeats are shown for a connection without session traffic; back-pressure from a session that does not drain its "
                     "incoming channel can delay them in the real engine (the engine awaits the channel inside select!)"],
+    },
+    "C09": {
+        "class_prefixes": ["c09-", "harness-crash"],
+        "subs": [
+            {"name": "rx", "n_quick": 1500, "n_thorough": 40000, "model": "coq/Link/Receiver.v",
+             "rule": "receiving link: credit mode from {manual, auto:1,2,3,5, auto:4..12}, rcv-settle-mode first/second, initial delivery-count near 0, 2^31, 2^32; "
+                     "3..16 (thorough 3..30) of: a delivery (message generated from its id, cut at random byte offsets into 1..7 frames, empty frames, optional fields "
+                     "omitted/repeated on continuations, settled yes/no/unset, per-transfer rcv-settle-mode override; with faults: abort at a random frame, a contradictory "
+                     "continuation), recv, set_credit, drain, a peer flow (delivery-count truthful / advanced / unset, echo), accept oldest / newest / all, the sender's settling disposition"},
+        ],
+        "rule": "a case is one script run against the real Receiver (client side, scripted sender peer over an in-memory duplex, paused clock, one event per "
+                "barrier) and through the extracted Coq model; compared per step: link flows (delivery-count, credit, drain, echo), dispositions, results of recv "
+                "(delivery-id, tag, format, message bytes re-encoded) and at the end credit, delivery-count, drain flag and the unsettled map; non-trivial = at "
+                "least two deliveries returned; the direct oracle checks credit overrun and delivery-count ahead of the sender",
+        "trusted": ["model scope: see the header of coq/Link/Receiver.v; the session's incoming window and the connection are not part of it (C07/C12)",
+                    "scripted peer and barrier as for C12; hook receiver_unsettled_and_flow reads the final state"],
+        "assumptions": ["one stimulus per quiescence barrier", "the application does not dispose while a recv() is pending (the API takes &mut self)"],
+        "partial": ["accounting clause: refuted for flows that overtake queued transfers (known finding c09-dc-double-count, Coq witness); "
+                    "the enforcement and replenishment clauses are proved"],
+    },
+    "C10": {
+        "class_prefixes": ["c10-", "harness-crash"],
+        "subs": [
+            {"name": "rx", "n_quick": 1500, "n_thorough": 40000, "model": "coq/Link/Receiver.v",
+             "rule": "receiving link: credit mode from {manual, auto:1,2,3,5, auto:4..12}, rcv-settle-mode first/second, initial delivery-count near 0, 2^31, 2^32; "
+                     "3..16 (thorough 3..30) of: a delivery (message generated from its id, cut at random byte offsets into 1..7 frames, empty frames, optional fields "
+                     "omitted/repeated on continuations, settled yes/no/unset, per-transfer rcv-settle-mode override; with faults: abort at a random frame, a contradictory "
+                     "continuation), recv, set_credit, drain, a peer flow (delivery-count truthful / advanced / unset, echo), accept oldest / newest / all, the sender's settling disposition"},
+        ],
+        "rule": "as C09; the direct oracle checks that every returned message is byte-for-byte the message generated for that delivery-id and that no delivery is returned twice",
+        "trusted": ["model scope: see the header of coq/Link/Receiver.v; messages are opaque byte strings in the model, decoding (C03/C05) is not part of it: "
+                    "the harness re-encodes what recv() returned and compares bytes",
+                    "interleaving with other links: each link has its own state in the model and in the code (routing by handle is C11)"],
+        "assumptions": ["one stimulus per quiescence barrier"],
+        "partial": ["resumed deliveries (transfer.resume) and delivery state carried on transfers are not modelled"],
     },
 }
